@@ -293,6 +293,10 @@ class InterleaveProfile:
         cfg["timeout"] = self.T if timeout else 0
         k = rnd.randint(2, 6)
         cids = rnd.sample(range(1, 60), k)
+        if rnd.random() < 0.25:
+            # large ids (long routing tags), possibly after thousands of earlier announcements
+            pool = list(range(256, 300)) + list(range(4096, 4140)) + [65536, 1 << 20, (1 << 24) + 5, 2147483647, 2147483646, -2, -2147483648]
+            cids = rnd.sample(pool, k)
         convs = []
         ended = []
         for j in range(k):
@@ -318,7 +322,9 @@ class InterleaveProfile:
         orders = [self.merge(rnd, convs, after, ended), self.merge(rnd, convs, after, ended)]
         if tier == "thorough" or after or rnd.random() < 0.3:
             orders.append("solo")
-        plan = {"profile": "interleave", "cfg": cfg, "convs": convs, "orders": orders, "after": after, "ended": ended}
+        plan = {"profile": "interleave", "cfg": cfg, "convs": convs, "orders": orders, "after": after, "ended": ended,
+                # schedule 0 may be preceded by hundreds or thousands of unrelated short-lived clients
+                "prelude": rnd.choice([0, 0, 0, 0, 0, 0, 300, 300, 4200]) if tier == "quick" else rnd.choice([0, 0, 0, 300, 4200, 70000])}
         return plan, self.run(plan, tag)
 
     def merge(self, rnd, convs, after=None, ended=None):
@@ -356,12 +362,28 @@ class InterleaveProfile:
             order.append(k)
         return order
 
-    def run_order(self, cfg, convs, order, tag):
+    def run_order(self, cfg, convs, order, tag, prelude=0):
         """-> (per-conversation projection, result)"""
         ex = Exec(cfg, tag=tag, prop="C07")
         proj = [[] for _ in convs]
         if ex.res.infra:
             return proj, ex.finish()
+        if prelude:
+            # other clients' traffic before anybody of interest arrives: `prelude` short-lived clients on an id
+            # nobody else uses come and go (instance serials, allocation counters and the like move on)
+            pid = 7777
+            out = []
+            try:
+                for base in range(0, prelude, 200):
+                    n = min(200, prelude - base)
+                    out += ex.h.feed(("".join("%d C 10.9.%d.%d 1000 0::1 6667\n%d D\n" % (pid, (base + j) // 250 % 250, (base + j) % 250 + 1, pid)
+                                              for j in range(n))).encode()).lines()
+            except (H.HostDied, H.HostHang):
+                ex.died = "HostDied"
+                return proj, ex.finish()
+            ex.res.steps += 2 * prelude
+            if [l for l in out if not l.startswith(">")]:
+                ex.w.v("C07", "foreign-output", "clients that only came and went produced output: %r" % out[:3])
         pos = [0] * len(convs)
         nann = 0
         inst_of = {}
@@ -425,7 +447,7 @@ class InterleaveProfile:
                 projs.append(pj)
                 results.append(rs)
             else:
-                pj, rs = self.run_order(cfg, convs, order, tag + "m%d" % n)
+                pj, rs = self.run_order(cfg, convs, order, tag + "m%d" % n, prelude=plan.get("prelude", 0) if n == 0 else 0)
                 projs.append(pj)
                 results.append(rs)
         res = results[0] if results else proto.Result()
@@ -457,6 +479,7 @@ class InterleaveProfile:
         res.extra["schedules"] = len(plan["orders"])
         res.extra["with_timeouts"] = int(bool(cfg.get("timeout")))
         res.extra["conversations_taking_over_an_id"] = len(plan.get("after") or {})
+        res.extra["schedules_after_a_crowd_of_earlier_clients"] = int(bool(plan.get("prelude")))
         res.extra["late_replies_for_departed_clients"] = sum(1 for c in convs for op in c if op.get("late"))
         return res
 
@@ -473,6 +496,13 @@ class InterleaveProfile:
 
     def shrink(self, plan, pred, budget):
         cur = copy.deepcopy(plan)
+        for smaller in (0, 300):
+            if cur.get("prelude", 0) > smaller and budget[0] > 0:
+                c = dict(cur, prelude=smaller)
+                budget[0] -= 1
+                if pred(c):
+                    cur = c
+                    break
         # drop whole conversations (orders must be re-indexed)
         k = 0
         while k < len(cur["convs"]) and len(cur["convs"]) > 1 and budget[0] > 0:
